@@ -1081,6 +1081,15 @@ var engineCorpus = []corpusCase{
 		fn: map[string][]eFres{"aa": st1("caf\xe9")}, cfg: eCfg{FlagCount: 1}, inputs: []string{"", "1", "x", "y"}, only: "C07"},
 	{name: "utf8-boundaries", nodes: [][3]string{{"root", "HALT; INCMP foo *", "root"}, {"foo", "LOAD aa 0; HALT; INCMP bar *", "foo"}, {"bar", "HALT; INCMP _ *", "bar"}, {"_catch", "HALT; INCMP _ *", "catch"}},
 		fn: map[string][]eFres{"aa": st1("\u00e9\u20ac\U0001F600\ud7ff\ue000\U0010FFFF")}, cfg: eCfg{FlagCount: 1}, inputs: []string{"", "1", "x", "y"}, only: "C07"},
+	// a gracefully ended session, then the empty input of an engine configured with ResetOnEmptyInput (and a first
+	// request that is empty, and an empty input at the entry node with symbols loaded there)
+	{name: "reset-on-empty-after-end", nodes: [][3]string{{"root", "LOAD aa 10; MAP aa; HALT; INCMP foo 1; INCMP end1 2", "root {{.aa}}"}, {"foo", "LOAD bb 10; MAP bb; HALT; INCMP _ 0", "foo {{.bb}}"}, {"end1", "LOAD cc 0; HALT", "the end"}, {"_catch", "HALT; INCMP _ *", "catch"}},
+		fn: map[string][]eFres{"aa": []eFres{{Content: "a1"}, {Content: "a2"}, {Content: "a3"}, {Content: "a4"}}, "bb": st1("b"), "cc": st1("bye")}, cfg: eCfg{FlagCount: 1, ResetEmpty: true}, inputs: []string{"", "", "1", "", "2", "", "", "1", "0", "2", "x", ""}},
+	// a node with two MOUT..HALT sections, and one entered by CATCH after a HALT: the menu is filled again after a
+	// Reset without a new page
+	{name: "menu-refilled-after-halt", nodes: [][3]string{{"root", "MOUT first 1; HALT; LOAD flag8 0; MOUT second 2; MOUT back 0; HALT; CATCH denied 8 1; INCMP _ 0; INCMP foo 2", "root"}, {"denied", "MOUT back 0; HALT; INCMP _ 0", "denied"}, {"foo", "MOUT back 0; HALT; INCMP _ 0", "foo"}, {"_catch", "MOUT back 0; HALT; INCMP _ 0", "catch"}},
+		menu: []kv{{"first_menu", "First"}, {"first_menu_nor", "Forste"}, {"second_menu", "Second"}, {"second_menu_nor", "Andre"}, {"back_menu", "Back"}, {"back_menu_nor", "Tilbake"}},
+		fn: map[string][]eFres{"flag8": []eFres{{Content: "x"}, {Content: "x", Set: []uint32{8}}}}, cfg: eCfg{FlagCount: 1, Lang: "nor"}, inputs: []string{"", "1", "2", "0", "1", "7", "0", "0"}},
 	{name: "percent-in-menu", nodes: [][3]string{{"root", "MOUT sale 1; MOUT salt 2; MOUT plain 3; MSINK; MNEXT nxt 11; MPREV prv 22; HALT; INCMP > 11; INCMP < 22; INCMP foo *", "root"}, {"foo", "MOUT sale 0; HALT; INCMP _ 0", "foo"}, {"_catch", "HALT; INCMP _ *", "catch"}},
 		menu: []kv{{"sale_menu", "20% sale"}, {"salt_menu", "salt %s and %d"}}, cfg: eCfg{FlagCount: 1, Out: 36}, inputs: []string{"", "11", "22", "x", "0"}},
 	{name: "reload-after-next", nodes: [][3]string{{"root", "LOAD sk 0; MAP sk; LOAD cnt 10; RELOAD cnt; MAP cnt; MNEXT nxt 11; MPREV prv 22; HALT; INCMP > 11; INCMP < 22", "r {{.cnt}} {{.sk}}"}, {"_catch", "MOUT back 0; HALT; INCMP _ 0", "catch"}},
